@@ -463,6 +463,18 @@ func run(r *core.Run) int {
 			}
 		}
 	}
+	// a fifth of the other scenarios check certificates whose validity ended in
+	// 2010 (signed and time-stamped while valid, verified now): they name their
+	// sources all the same, and a fault on those is a fault
+	for i, c := range cases {
+		if c.Group == 0 && i%5 == 2 {
+			plans := append([]sims.CertPlan{}, c.Sc.Plans...)
+			for pos := 0; pos < len(plans) && pos < c.Sc.Len-1; pos++ {
+				plans[pos].Shape.Expired = true
+			}
+			c.Sc.Plans = plans
+		}
+	}
 	// (4) the same call once or twice more on the same validator, fetcher and cache
 	for _, c := range append([]*Case{}, cases...) {
 		if c.Cancel == "" && c.Group == 0 && c.Sc.Entry == "validate" && (c.Sc.Cache != "" || rng.IntN(8) == 0) {
